@@ -93,6 +93,9 @@ func coqWireObs(ws []wireMsg) string {
 func coqByteList(b []byte) string { return coqBytes(b) }
 
 // runC05History executes one history on a fresh connection; returns the Coq text of the case.
+// perEventC05, when set (C12), is called after every event of a history has been fully processed.
+var perEventC05 func(i int, e c05Ev)
+
 func runC05History(evs []c05Ev, getMID int32) (string, bool) {
 	mc := newMemConn(memConnOpts{getMID: getMID, queueSize: 16, maxRetransmit: 4})
 	defer mc.close()
@@ -126,6 +129,10 @@ func runC05History(evs []c05Ev, getMID int32) (string, bool) {
 			ev := e
 			mc.mu.Lock()
 			mc.behave = func(w *responsewriter.ResponseWriter[*client.Conn], r *pool.Message) {
+				if activeTracker != nil {
+					activeTracker.Hold(r)
+					defer activeTracker.Unhold(r)
+				}
 				if ev.Beh == "resp" {
 					var body *bytes.Reader
 					if ev.PLen > 0 {
@@ -151,6 +158,9 @@ func runC05History(evs []c05Ev, getMID int32) (string, bool) {
 				beh = fmt.Sprintf("(BResp %d %s (gen_body %d %d%%nat))", e.RCode, coqOpts(e.ROpts), e.PSalt, e.PLen)
 			}
 			fmt.Fprintf(&sb, "HReq %d %d %s %d %s %s %s %s", e.Typ, e.MID, coqBytes(e.Tok), e.Code, coqOpts(e.ReqOpts), beh, coqBool(len(log) > 0), coqWireObs(out))
+		}
+		if perEventC05 != nil {
+			perEventC05(i, e)
 		}
 	}
 	sb.WriteString("]")
